@@ -240,6 +240,9 @@ U("esc", "esc_unicode_chain", "ESC", ["C04", "C05"], "quick",
 U("side", "side_a1_payload_free", "SIDE", ["C01", "C03", "C17"], "quick",
   "syntactic: no guard in validation.rs/utils.rs binds a StackObject payload; effect arms bind payloads only at the listed container sites")
 U("side", "side_replace_char_patterns", "SIDE", ["C04"], "quick", "syntactic: every .replace( in src/generator has a char-literal pattern")
+U("side", "oracle_vs_cpython", "ORACLE", ["C01", "C02", "C03", "C04", "C05", "C17"], "quick",
+  "differential validation of the oracle itself: reference lexer + reference machine vs CPython pickletools.genops/dis on 4000 (thorough: 20000) "
+  "random and pickletools-guided opcode streams (seeded by VERIF_SEED); any disagreement makes the check inconclusive")
 U("side", "data_stdlib_scan", "SIDE", ["C04", "C05"], "quick",
   "data: every line of data/stdlib_complete.txt is non-empty printable backslash-free ASCII with a non-empty module part (backs module_contract)")
 
